@@ -80,6 +80,90 @@ def run(tier):
                                "installed for the next program" % (f.path, field, E.exit_description(f, esc), "; ".join(wit[-4:]) or "direct"),
                                {"install": site, "exit": E.exit_description(f, esc), "path": wit})
 
+    # R1c: whoever runs a VM to an outcome inside one call puts the environment back afterwards.  A run installs scopes of its own
+    # (block scopes, callee scopes); when it fails inside them nobody pops them, so the driver must have remembered the environment
+    # on *every* path to the run (prepare() does, step() restores through abort/finalize - R3).
+    ck.rule("R1c.run-boundary", "every function that runs a VM to an outcome restores Interpreter.env on all paths after the run (or is a helper whose "
+                                "callers all do)", floor=3)
+    runs = {p for p in fx.fns if p.endswith("BytecodeVM::run")}
+    ck.anchor(bool(runs), "BytecodeVM::run")
+    _, callers = fx.callgraph()
+    drivers = set()
+    for r in runs:
+        drivers |= {c for c in callers.get(r, set()) if c in fx.fns and c.startswith("interpreter::Interpreter::")}
+    transparent = set()
+    judged = set()
+    work = sorted(drivers)
+    while work:
+        p = work.pop()
+        if p in judged:
+            continue
+        judged.add(p)
+        f = fx.fns[p]
+        ins, res, ho, saved = EV.analyse(fx, f, "env")
+        if not res and not any(f.blocks[b]["t"][0] == "call" and f.blocks[b]["t"][1].get("local") for b in ho):
+            # no restore of its own: a helper; its callers are the drivers
+            transparent.add(p)
+            cs = [c for c in callers.get(p, set()) if c in fx.fns and c != p]
+            if not cs or f.vis == "Public" and not cs:
+                ck.instance("R1c.run-boundary", "%s (public entry that runs a VM and never restores the environment)" % p, F.short_span(f.span), ok=False)
+                ck.finding("R1c.run-boundary", "R1c.run-boundary/%s" % p, F.short_span(f.span),
+                           "`%s` runs a VM and neither it nor any caller restores Interpreter.env afterwards" % p)
+            work.extend(c for c in cs if c.startswith("interpreter::"))
+            continue
+    for p in sorted(judged - transparent):
+        f = fx.fns[p]
+        ins, res, ho, saved = EV.analyse(fx, f, "env")
+        closers = {b for b, _ in res}
+        for b in ho:
+            t = f.blocks[b]["t"]
+            if t[0] == "call" and t[1].get("local"):
+                closers.add(b)
+            for st_ in f.blocks[b]["s"]:
+                if st_[0] == "a" and st_[1][1] and any(n in ("active_saved_env", "saved_interp_env", "saved_env") for _, _, n in F.place_fields(st_[1])):
+                    closers.add(b)
+        sites = [(bi, t) for bi, t in f.calls() if t[1].get("d") in runs or t[1].get("d") in transparent]
+        for bi, t in sites:
+            facts0 = E.some_facts_at(fx, f, bi)
+            esc = E.escapes_some_sensitive(fx, f, bi, closers, assume=tuple(facts0))
+            ck.instance("R1c.run-boundary", "%s runs %s" % (p, (t[1].get("d") or "?").split("::")[-1]), F.short_span(t[6]), ok=esc is None)
+            if esc is not None:
+                ck.finding("R1c.run-boundary", "R1c.run-boundary/%s" % p, F.short_span(t[6]),
+                           "`%s` runs a VM and can return (%s) without writing Interpreter.env back: a run that fails inside a block or a call leaves "
+                           "that scope current, and the next program sees its bindings (`{ let secret = 1; throw 0 }` then `typeof secret`)"
+                           % (p, E.exit_description(f, esc)))
+
+    # R6: disposing of a run empties the run-scoped stacks
+    ck.rule("R6.abort-clears-stacks", "the function that disposes of an active run clears the call stack and the scope guards the run pushed", floor=2)
+    disposers = [f for f in fx.fns.values() if not f.closure and f.path.startswith("interpreter::Interpreter::") and
+                 any(st_[0] == "a" and F.place_fields(st_[1]) and F.place_fields(st_[1])[-1][2] == "active_vm" and
+                     ((st_[2][0] == "agg" and st_[2][1].get("v") == "None") or
+                      (st_[2][0] == "use" and st_[2][1][0] in ("c", "m") and (M.trace_back(f, st_[2][1][1][0]) or (0, 0, ["", {}]))[2][0] == "agg"
+                       and (M.trace_back(f, st_[2][1][1][0]) or (0, 0, ["", {}]))[2][1].get("v") == "None"))
+                     for bl in f.blocks for st_ in bl["s"]) and
+                 any((t[1].get("d") or "").endswith("Option::<T>::take") and t[2] and t[2][0][0] in ("c", "m") and
+                     (E.field_of_ref(f, t[2][0][1][0]) or (None, None, None))[2] == "active_saved_env" for bi, t in f.calls())]
+    ck.anchor(bool(disposers), "run disposer (sets active_vm = None and takes active_saved_env)")
+    for f in disposers:
+        cleared = set()
+        for bi, t in f.calls():
+            d = t[1].get("d") or ""
+            if d.endswith(("Vec::<T, A>::clear", "Vec::<T, A>::truncate", "Vec::<T, A>::drain")) and t[2] and t[2][0][0] in ("c", "m"):
+                fl = E.field_of_ref(f, t[2][0][1][0])
+                if fl and fl[0] == INTERP:
+                    cleared.add(fl[2])
+        for st_ in [st_ for bl in f.blocks for st_ in bl["s"]]:
+            if st_[0] == "a" and F.place_fields(st_[1]) and F.place_fields(st_[1])[-1][0] == INTERP and F.place_fields(st_[1])[-1][2] in ("call_stack", "env_guards"):
+                cleared.add(F.place_fields(st_[1])[-1][2])
+        for fld in ("call_stack", "env_guards"):
+            ok = fld in cleared
+            ck.instance("R6.abort-clears-stacks", "%s clears %s" % (f.path, fld), F.short_span(f.span), ok=ok)
+            if not ok:
+                ck.finding("R6.abort-clears-stacks", "R6.abort-clears-stacks/%s/%s" % (f.path, fld), F.short_span(f.span),
+                           "`%s` disposes of a run the host stopped stepping but leaves `%s` as the run left it: a run abandoned inside calls and blocks "
+                           "keeps its %s (call_depth() stays above 0 / the objects of its scopes stay rooted: +6 live objects per abandoned run)"
+                           % (f.path, fld, "call-stack entries" if fld == "call_stack" else "scope guards"))
+
     # R3: step() error arm
     # R3b: whoever takes the saved environment out of its slot puts it back whenever there is one
     ck.rule("R3b.slot-restore", "a function that takes Interpreter.active_saved_env restores Interpreter.env on every path on which the slot held a value", floor=1)
